@@ -269,8 +269,8 @@ def compare(case, io, mo, mode):
     if "err" in mo:
         if mo["err"] == "negative_index":
             return None          # a negative subscript is an error branch of the translation; Python wraps around
-        if mo["err"] == "index_error" and mode == "jit":
-            return None          # undefined in compiled code
+        if mo["err"] == "index_error" and mode == "jit" and not mo.get("raised"):
+            return None          # an out-of-range subscript is undefined in compiled code (an explicit raise is not)
         a = io.get("err") if isinstance(io, dict) else None
         return None if a == mo["err"] else f"real kernel {str(io)[:200]} generated kernel err={mo['err']}"
     if "err" in io:
